@@ -292,6 +292,9 @@ func c01Fronts(c *core.Ctx) {
 }
 
 func (c01) RunCase(c *core.Ctx) {
+	if c.Case%97 == 23 && !w10(c, "C01") {
+		return
+	}
 	if c.Case%100 == 41 {
 		// the struct a Preprocess function returns is parsed like any other record: 0 and false are present values and are tested
 		c.Eval(1)
